@@ -6,6 +6,8 @@ CONSTANTS
   SignerSets <- Sets2
   MaxBurns = 3
   MaxMints = 2
+  MaxBlocks = 2
+  MaxOps = 4
   Merger = "overwrite"
   TicketStore = "all"
   BurnsFirst = TRUE
